@@ -84,6 +84,18 @@ def run(tier, seed):
         sim, walks = activation.generate(wd, 6, simulate="num=%d" % nsim, seed=seed, module="Gen_Input")
         for k, h in enumerate(walks):
             plans.append({"id": "walk%d" % k, "steps": activation.happy_prefix() + h})
+        # events refused (or dropped by the lenient write) outside the window must leave no trace: submissions before the
+        # first activation, between a deactivate-all and the re-activation, then accepted events - each accepted event
+        # is one PDU carrying exactly that event
+        ins = [{"in": {"api": "write", "dev": "ptr", "x": 7, "y": 9, "b": 1, "down": True}}, {"in": {"api": "try_write", "dev": "key", "code": 48, "down": True}},
+               {"in": {"api": "try_write", "dev": "ptr", "x": 8, "y": 1, "b": 0, "down": False}}, {"in": {"api": "write", "dev": "key", "code": 30, "down": False}}]
+        hp = activation.happy_prefix()
+        for k in range(12 if tier == "quick" else 200):
+            pre = [dict(rng.choice(ins)) for _ in range(rng.randint(1, 3))]
+            mid = [dict(rng.choice(ins)) for _ in range(rng.randint(1, 3))]
+            cut = rng.randint(0, len(hp) - 1)
+            steps = pre + hp[:cut] + [dict(rng.choice(ins))] + hp[cut:] + [dict(x) for x in ins[:2]] + [{"srv": {"kind": "DeactivateAll"}}] + mid + hp + [dict(x) for x in ins[2:]]
+            plans.append({"id": "refused%d" % k, "steps": steps})
         sw, nvals = sweep_plans(tier, rng)
         plans += sw
         self_plan = {"id": "selftest", "uid": 1004, "steps": activation.happy_prefix() + [
